@@ -79,36 +79,6 @@ Proof.
   - repeat split; auto.
 Qed.
 
-(* the event being post-processed by the consumer is the last one it emitted *)
-Definition invP (s : state) : Prop := forall e, cp s = CPost e -> exists t, emitted s = e :: t.
-
-Lemma invP_step c s l : invP s -> invP (step c s l).
-Proof.
-  intros HP. destruct l; cbn [step].
-  - unfold consumer_step. destruct (cp s) eqn:Ecp.
-    + destruct (queue s) as [|e q]; [intros e He; discriminate|].
-      destruct (stop s); intros e0 He; cbn in He; [discriminate|]. inversion He; subst. eexists; reflexivity.
-    + destruct (if counts_as_failure e then count_failure c (counter s) (limit s) else (counter s, limit s)) as [n lim].
-      intros e0 He. cbn in He. destruct ((if is_interrupt e || stop s then true else stop s) || lim); discriminate.
-    + intros e0 He. cbn in He.
-      destruct (forallb is_dead (workers s)); [destruct (drain_fix c)|]; discriminate.
-    + intros e0 He. cbn in He. destruct (queue s); discriminate.
-    + intros e0 He. rewrite Ecp in He. discriminate.
-  - destruct (nth_error (workers s) i) eqn:Ei; auto.
-    destruct (worker_step_flags c s i w) as (_ & _ & F3).
-    assert (F4 : emitted (worker_step c s i w) = emitted s).
-    { destruct w; cbn [worker_step]; auto.
-      - destruct (ops s); auto. destruct (build_err o); auto.
-      - destruct (has_to_stop s); auto.
-      - destruct c0; auto. destruct (cof c); auto.
-      - destruct script; auto. }
-    intros e He. rewrite F3 in He. rewrite F4. auto.
-  - exact HP.
-Qed.
-
-Lemma invP_init n os : invP (init n os).
-Proof. intros e He. discriminate. Qed.
-
 Lemma quiet_consumer c s : maxf c = None -> invP s -> quiet s -> quiet (consumer_step c s).
 Proof.
   intros Hm HP (Q1 & Q2 & Q3 & Q4 & Q5). unfold consumer_step. destruct (cp s) eqn:Ecp.
